@@ -54,7 +54,8 @@ PRIOR = (gmutate.FS_CLASSES * 2 + ['m-digest', 'm-size', 'm-drop', 'm-ghost',
                                         'm-manifest-as-data-only',
                                         'm-manifest-as-data-only',
                                         'm-manifest-data-in-between',
-                                        'm-manifest-data-in-between'])
+                                        'm-manifest-data-in-between',
+                                        'm-compatible-dup-across'])
 EDITS = ['content', 'size', 'delete', 'stray', 'stray', 'stray-manifest-name', 'retype',
          'hidden-content', 'hidden-delete']
 N = {'quick': 1500, 'thorough': 60000}
